@@ -678,7 +678,30 @@ def c08(ctx):
     ctx.random_validate("bagsess", 16 if q else 160, 80, run_extra=scan)
 
 
+def c10(ctx):
+    """Everything on the wire is what the OTR specification prescribes.  The independent reference
+    (harness/ref: standard library only) re-derives, from both sides' journalled secrets, the AKE
+    keys, SSID, signature validity, session keys, MACs, counters, key ids, ciphertext, disclosed keys,
+    padding and extra symmetric key of every message the real code emits; the result is the abstract
+    message record that the TLA+ specification must reproduce exactly.  In the other direction the
+    reference plays the peer (attack catalogue, honest E)."""
+    q = ctx.quick()
+    inv = ["NoHonestReject", "PrefixOrder", "DisclosedRetired"]
+    ctx.model("c10-data", dict(DATA33, MaxSend=3, MaxFlight=3, MaxExtra=1), inv)
+    ctx.export_validate("c10x-v3", dict(DATA33, MaxSend=2, MaxFlight=2, MaxTick=1, MaxExtra=1), "fifo-data", drain=True, maxsched=1200 if q else None)
+    ctx.export_validate("c10x-v2", dict(PolA=1, PolB=1, Setup="ake", MaxSend=2, MaxFlight=2, MaxExtra=1), "fifo-data", drain=True, maxsched=600 if q else None)
+    for name in (("both", "tag") if q else ("queryA", "both", "both-v2", "tag", "req", "err", "refresh")):
+        pol, prelude = STARTS[name]
+        ctx.export_validate("c10x-" + name, dict(pol, Prelude=prelude, MaxFlight=4, MaxSend=1), "none", drain=True, maxsched=300 if q else None)
+    ctx.export_validate("c10x-smp", dict(SMPCFG, MaxSMPStart=1, MaxSMPAnswer=1, Secrets=[4]), "none", drain=True, maxsched=100 if q else None)
+    ctx.random_validate("data", 32 if q else 320, 80)
+    ctx.random_validate("fragsweep", 8 if q else 32, 30)
+    ctx.random_validate("life", 32 if q else 320, 60)
+    ctx.attack_catalogue("ake")
+
+
 TABLE = {
+    "C10": c10,
     "C08": c08,
     "C14": c14,
     "C11": c11,
